@@ -14,7 +14,7 @@ use serde::{Deserialize, Serialize};
 use serde_json::json;
 use std::time::{Duration, Instant};
 
-pub const RULE: &str = "arithmetic: tuples (remaining 0..10^7 ms log-uniform and grid values, increment 0..10^5, moves-to-go none or 1..200, Move Overhead 0..min(1000, remaining/2), side to move, the other side's clock absent / tiny / huge / equal) -> TimeStrategy::new on TimeControl::Clocks, limits read through the hook accessor: hard <= (remaining - overhead)/2 and soft <= hard (tolerance 2^-20 relative + 1 us, the engine computes in f32), no panic; ExactTime(t) => soft = hard = t; and parser::parse('go wtime .. btime .. winc .. binc .. movestogo ..') must put every number into its field. Poll gate ('poll_gate'): should_stop driven like the search drives it (one call per node, consecutive counters) from first counters around 0, 2^16 .. 2^40 (2^32 +- 40000 in a third of the cases) under a 2-11 ms fixed move time or clock limit: a stop answer within 1000000 nodes (a fifth of a second of search) after the limit has passed. Wall clock, shipped binary, at most 4 processes at a time: middlegame positions x remaining 200..2000 ms x increments x moves-to-go x Move Overhead x (a quarter of the cases) an additional 'depth 30-99', the other side's clock 100x larger; the time from writing 'go' to reading 'bestmove' must be below the remaining time; an overrun counts only if it repeats in three consecutive solo re-runs. Non-trivial = tuple where the 50 % cap binds, or moves-to-go <= 2, or remaining <= 300 ms; distinct by tuple.";
+pub const RULE: &str = "arithmetic: tuples (remaining 0..10^7 ms log-uniform and grid values, increment 0..10^5, moves-to-go none or 1..200, Move Overhead 0..min(1000, remaining/2), side to move, the other side's clock absent / tiny / huge / equal) -> TimeStrategy::new on TimeControl::Clocks, limits read through the hook accessor: hard <= (remaining - overhead)/2 and soft <= hard (tolerance 2^-20 relative + 1 us, the engine computes in f32), no panic; ExactTime(t) => soft = hard = t; and parser::parse('go wtime .. btime .. winc .. binc .. movestogo ..') must put every number into its field. Poll gate ('poll_gate'): should_stop driven like the search drives it (one call per node, consecutive counters) from first counters around 0, 2^16 .. 2^40 (2^32 +- 40000 in a third of the cases) under a 2-11 ms fixed move time or clock limit: a stop answer within 1000000 nodes (a fifth of a second of search) after the limit has passed. Wall clock, shipped binary, at most 4 processes at a time: middlegame positions x remaining 200..2000 ms x increments x moves-to-go x Move Overhead x (a quarter of the cases) an additional 'depth 30-99', the other side's clock 100x larger (one case in six sends 'go movetime <half of that time>' instead of clocks and must likewise answer before the full time has passed); the time from writing 'go' to reading 'bestmove' must be below the remaining time; an overrun counts only if it repeats in three consecutive solo re-runs. Non-trivial = tuple where the 50 % cap binds, or moves-to-go <= 2, or remaining <= 300 ms; distinct by tuple.";
 
 #[derive(Serialize, Deserialize, Clone, Debug)]
 pub struct Tuple {
@@ -141,10 +141,13 @@ pub enum Timing {
         /// `depth N` sent together with the clocks (GUIs do that for depth-capped games)
         #[serde(default)]
         depth: Option<u8>,
+        /// `go movetime M` (with the optional depth) instead of clocks
+        #[serde(default)]
+        movetime: Option<u32>,
     },
 }
 
-fn measure(fen: &str, moves: &[String], white: bool, remaining: u32, inc: u32, mtg: Option<u32>, overhead: u32, depth: Option<u8>) -> Result<f64, String> {
+fn measure(fen: &str, moves: &[String], white: bool, remaining: u32, inc: u32, mtg: Option<u32>, overhead: u32, depth: Option<u8>, movetime: Option<u32>) -> Result<f64, String> {
     let mut e = Engine::spawn(&[])?;
     e.send("setoption name Hash value 16")?;
     e.send(&format!("setoption name Move Overhead value {overhead}"))?;
@@ -163,6 +166,9 @@ fn measure(fen: &str, moves: &[String], white: bool, remaining: u32, inc: u32, m
     let mut cmd = format!("go wtime {w} btime {b} winc {wi} binc {bi}");
     if let Some(m) = mtg {
         cmd.push_str(&format!(" movestogo {m}"));
+    }
+    if let Some(ms) = movetime {
+        cmd = format!("go movetime {ms}");
     }
     if let Some(d) = depth {
         cmd.push_str(&format!(" depth {d}"));
@@ -198,7 +204,7 @@ fn measure(fen: &str, moves: &[String], white: bool, remaining: u32, inc: u32, m
 static SOLO: std::sync::Mutex<()> = std::sync::Mutex::new(());
 
 fn check_timing(c: &Timing, st: &mut Stats) -> Result<(), Fail> {
-    let (fen, moves, remaining, inc, mtg, overhead, depth) = match c {
+    let (fen, moves, remaining, inc, mtg, overhead, depth, movetime) = match c {
         Timing::Tape(data) => {
             let mut t = Tape::new(data);
             // a quarter of the cases use capture-storm positions, whose first iteration alone can
@@ -220,9 +226,11 @@ fn check_timing(c: &Timing, st: &mut Stats) -> Result<(), Fail> {
             let overhead = [0u32, 0, 10, 50, 100][t.pick(5)].min(remaining / 2);
             // a quarter of the cases also name a depth far beyond what the clock allows
             let depth = if t.pick(4) == 0 { Some(30 + t.pick(70) as u8) } else { None };
-            (fen, moves, remaining, inc, mtg, overhead, depth)
+            // one case in six: a fixed move time (of half the "clock") instead of clocks
+            let movetime = if t.pick(6) == 0 { Some(remaining / 2) } else { None };
+            (fen, moves, remaining, inc, mtg, overhead, depth, movetime)
         }
-        Timing::Explicit { fen, moves, remaining_ms, increment_ms, movestogo, overhead_ms, depth } => (fen.clone(), moves.clone(), *remaining_ms, *increment_ms, *movestogo, (*overhead_ms).min(*remaining_ms / 2), *depth),
+        Timing::Explicit { fen, moves, remaining_ms, increment_ms, movestogo, overhead_ms, depth, movetime } => (fen.clone(), moves.clone(), *remaining_ms, *increment_ms, *movestogo, (*overhead_ms).min(*remaining_ms / 2), *depth, *movetime),
     };
     let spec = SearchSpec { fen: fen.clone(), moves: moves.clone(), limit: Limit::Depth(1) };
     let Some((pos, _)) = build(&spec) else { return Ok(()) };
@@ -230,10 +238,10 @@ fn check_timing(c: &Timing, st: &mut Stats) -> Result<(), Fail> {
         return Ok(());
     }
     st.eval();
-    let ex = || json!({"Explicit": {"fen": fen, "moves": moves, "remaining_ms": remaining, "increment_ms": inc, "movestogo": mtg, "overhead_ms": overhead, "depth": depth}});
+    let ex = || json!({"Explicit": {"fen": fen, "moves": moves, "remaining_ms": remaining, "increment_ms": inc, "movestogo": mtg, "overhead_ms": overhead, "depth": depth, "movetime": movetime}});
     let white = pos.white_to_move;
     let io = |e: String| Fail::new("binary:io", format!("engine process: {e}")).explicit(ex());
-    let took = measure(&fen, &moves, white, remaining, inc, mtg, overhead, depth).map_err(io)?;
+    let took = measure(&fen, &moves, white, remaining, inc, mtg, overhead, depth, movetime).map_err(io)?;
     st.class(if took < remaining as f64 / 2.0 + 15.0 { "answered_within_half_plus_15ms" } else { "answered_later_than_half_plus_15ms" });
     if remaining <= 300 || mtg.map_or(false, |m| m <= 2) {
         st.nontrivial(&format!("{fen} {moves:?} {remaining} {inc} {mtg:?} {overhead}"));
@@ -244,7 +252,12 @@ fn check_timing(c: &Timing, st: &mut Stats) -> Result<(), Fail> {
         st.sample(json!({"fen": pos.to_fen(), "remaining_ms": remaining, "increment_ms": inc, "movestogo": mtg, "answered_after_ms": took}));
     }
     if depth.is_some() {
-        st.class("clocks_together_with_a_depth_limit");
+        st.class("time_limit_together_with_a_depth_limit");
+    }
+    if movetime.is_some() {
+        // "a fixed move time is used as given": the answer is due after `remaining / 2` ms; answering
+        // later than `remaining` (twice the move time, at least 100 ms late) is the overrun here
+        st.class("fixed_move_time_instead_of_clocks");
     }
     if took >= remaining as f64 {
         // a deterministic overrun comes from the code, a single one from the machine: three solo re-runs
@@ -252,14 +265,14 @@ fn check_timing(c: &Timing, st: &mut Stats) -> Result<(), Fail> {
         let _guard = SOLO.lock().unwrap();
         let mut times = vec![took];
         for _ in 0..3 {
-            let again = measure(&fen, &moves, white, remaining, inc, mtg, overhead, depth).map_err(io)?;
+            let again = measure(&fen, &moves, white, remaining, inc, mtg, overhead, depth, movetime).map_err(io)?;
             times.push(again);
             if again < remaining as f64 {
                 st.class("overrun_not_repeated");
                 return Ok(());
             }
         }
-        return Err(Fail::new("clock:flag_fall", format!("{} with {remaining} ms on the clock (inc {inc}, movestogo {mtg:?}, overhead {overhead}, depth {depth:?}): bestmove after {times:?} ms in four runs", pos.to_fen())).explicit(ex()));
+        return Err(Fail::new("clock:flag_fall", format!("{} with {remaining} ms on the clock (inc {inc}, movestogo {mtg:?}, overhead {overhead}, depth {depth:?}, movetime {movetime:?}): bestmove after {times:?} ms in four runs", pos.to_fen())).explicit(ex()));
     }
     Ok(())
 }
